@@ -131,18 +131,20 @@ func init() {
 	}
 	for _, p := range props {
 		p := p
+		mp := &multiPhase{}
+		mp.add(func(tier string) Plan { return e1Plan(p.quick, p.thorough)(tier)[0] }, func(w *W, idx int) { runHistory(w, idx, p.cfg(w.Tier)) })
+		if n := len(probesByProp[p.id]); n > 0 {
+			mp.add(func(string) Plan { return Plan{Cases: n, Workers: 1, MaxProcs: 1, Timeout: 5 * time.Minute} }, func(w *W, idx int) { runProbe(w, idx, p.id) })
+		}
+		if p.id == "C12" {
+			mp.add(e2PhaseFor("C12", e2Oracles{keys: true}))
+		}
 		register(&Property{
 			ID: p.id, Level: "exploration", Rule: p.rule,
-			Assume: []string{"single goroutine (concurrency is decided by the E2/E3 monitors)", "generator respects the model boundaries of DESIGN.md 3.3",
+			Assume: []string{"single goroutine in the lock-step histories (concurrency is decided by the E2/E3 monitors)", "generator respects the model boundaries of DESIGN.md 3.3",
 				"the reference model (harness/cmd/vcheck/model.go) encodes the property statement correctly"},
-			Plan: withProbes(p.id, e1Plan(p.quick, p.thorough)),
-			Run: func(w *W, phase, idx int) {
-				if phase == 1 {
-					runProbe(w, idx, p.id)
-					return
-				}
-				runHistory(w, idx, p.cfg(w.Tier))
-			},
+			Plan:      mp.Plan,
+			Run:       mp.Run,
 			MinEvents: p.min,
 		})
 	}
